@@ -53,6 +53,51 @@ def check_marker_flow(ctx, fx, rule, variant, floor):
     return good_fns
 
 
+class SubmitOnOk(nfa.Spec):
+    """a stop / restart entry point reports Ok only after its marker was accepted by the forcing closure (or by the entry
+    point it delegates to); a path that answers Ok without submitting silently drops the request"""
+    init = ("none",)
+
+    def step(self, st, label):
+        label = loops.norm(label)
+        ev = label.split("@")[0]
+        src = label.split("@")[1] if "@" in label else ""
+        ph = st[0]
+        if ev in ("unwind", "cancel") or ev.startswith("pend:"):
+            return st
+        if ev in ("call:fsend", "call:delegate"):
+            return ("called",)
+        if ev == "sw:Res::Ok" and src in ("fsend", "delegate") and ph == "called":
+            return ("accepted",)
+        if ev == "sw:Res::Err" and src in ("fsend", "delegate") and ph == "called":
+            return ("refused",)
+        if ev == "retval:Ok":
+            if ph != "accepted":
+                return nfa.Err("reports Ok although the request was not submitted on this path (phase %s)" % ph)
+            return st
+        if ev == "ret" and ph == "none":
+            # must have produced an error result (retval:Err / residual) — those do not change the phase
+            return st
+        return st
+
+
+def check_submit_on_ok(ctx, fx, rule, entry, entries):
+    f = fx.fn(entry)
+    if f is None or f.get("is_async"):
+        return
+    b = ctx.body(fx, f)
+    A = nfa.Alphabet(
+        calls=[("fsend", lambda t: t.get("trait") == FORCE_TRAIT), ("delegate", lambda t: (t.get("callee") in entries and t.get("callee") != entry))],
+        adts={"core::ops::control_flow::ControlFlow": "Res", "core::result::Result": "Res", "core::option::Option": "Option"}, retval=True)
+    n = nfa.build(b, A, fx, depth=2)
+    viols, ps = nfa.check(n, SubmitOnOk())
+    ctx.count_nfa(n.stats(), ps)
+    for v in viols:
+        ctx.viol(rule, "ok-means-submitted:" + entry, v["msg"], fn=entry, site=f["loc"], trace=v["trace"])
+    if not viols:
+        ctx.ok(rule, "ok-means-submitted:" + entry, f["loc"], {"words": [" ".join(w) for w in nfa.words(n, limit=3)]})
+
+
 def first_await_or_end(b):
     """blocks reachable from entry without crossing a Yield (i.e. executed before the first suspension)"""
     seen = set()
@@ -114,6 +159,8 @@ def run(ctx):
         ctx.require(hit is not None and not uses_waiting, "R04.1", "entry:" + e,
                     "stop entry point does not enqueue Payload::Stop through the forcing closure before its first await (waiting path used: %s)" % uses_waiting,
                     fn=e, site=(hit[1] if hit else fx.fn(e)["loc"]), detail=hit)
+    for e in STOP_ENTRIES:
+        check_submit_on_ok(ctx, fx, "R04.1", e, set(STOP_ENTRIES))
     # R04.5 the ordering argument: Stop travels in the actor's single FIFO queue, behind everything submitted before
     from props.c01 import check_single_queue
     check_single_queue(ctx, fx, "tokio", "R04.5", "R04.5")
